@@ -1,1 +1,275 @@
-/-! # C08 — property theorems (to be filled in) -/
+import JokerVerif.Lemmas.DataLemmas
+/-!
+# C08 — multi-survey data keep every observation tied to its own survey offset
+
+Property theorems only.  `svs` = the sources in the order given (`(key, survey)`; for list input the keys are
+`0, 1, …`), each source an `RVData` with 1-D errors (`WellFormed`: its three arrays have one length).  All
+statements hold for every number of sources, every size, every time layout (disjoint, interleaved, identical
+epochs in several sources) and **every** permutation `perm` the model accepts as the result of sorting the
+merged times (numpy's sort is not stable, so tied epochs may come out in any order).
+-/
+namespace Data
+variable {κ τ ν : Type} [LinearOrder κ] (le : τ → τ → Bool)
+
+/-- the merged arrays, zipped, are the labelled input observations indexed by the one sorting permutation:
+time, velocity, error **and survey key** of a row all come from the same input observation -/
+theorem merge_pairing (svs : List (κ × Survey τ ν)) (hwf : WellFormed svs) (nOffsets : Nat) (perm : List Nat)
+    (m : Merged κ τ ν) (h : merge le svs nOffsets perm = .ok m) :
+    m.t.zip (m.rv.zip (m.err.zip m.ids)) = gather perm (labelled svs) := by
+  obtain ⟨_, _, _, ht, hr, he, hi, _⟩ := merge_ok le svs nOffsets perm m h
+  obtain ⟨l1, l2, l3⟩ := cat_lengths svs hwf
+  rw [ht, hr, he, hi, labelled_eq_zip svs hwf,
+    gather_zip perm (catT svs) _ (by simp only [List.length_zip]; omega),
+    gather_zip perm (catRv svs) _ (by simp only [List.length_zip]; omega),
+    gather_zip perm (catErr svs) _ (by omega)]
+
+/-- the merged data set is exactly the union (as a multiset) of the input observations, each tagged with the
+key of the source it came from — also when different sources share identical epochs -/
+theorem merge_is_union (svs : List (κ × Survey τ ν)) (hwf : WellFormed svs) (nOffsets : Nat) (perm : List Nat)
+    (m : Merged κ τ ν) (h : merge le svs nOffsets perm = .ok m) :
+    (m.t.zip (m.rv.zip (m.err.zip m.ids))).Perm (labelled svs) := by
+  rw [merge_pairing le svs hwf nOffsets perm m h]
+  obtain ⟨_, _, hv, _⟩ := merge_ok le svs nOffsets perm m h
+  simp only [validPerm, Bool.and_eq_true] at hv
+  obtain ⟨l1, l2, l3⟩ := cat_lengths svs hwf
+  have hl : (labelled svs).length = (catT svs).length := by
+    rw [labelled_eq_zip svs hwf]; simp only [List.length_zip]; omega
+  exact gather_perm perm _ (by rw [hl]; exact isPermOfRange_perm _ _ hv.1)
+
+/-- merged times are non-decreasing -/
+theorem merge_sorted (htrans : ∀ a b c, le a b = true → le b c = true → le a c = true)
+    (svs : List (κ × Survey τ ν)) (nOffsets : Nat) (perm : List Nat)
+    (m : Merged κ τ ν) (h : merge le svs nOffsets perm = .ok m) :
+    m.t.Pairwise (fun a b => le a b = true) := by
+  obtain ⟨_, _, hv, ht, _⟩ := merge_ok le svs nOffsets perm m h
+  simp only [validPerm, Bool.and_eq_true] at hv
+  rw [ht]; exact isSorted_pairwise le htrans _ hv.2
+
+/-- the keys that get a column are the keys of the sources, in increasing key order, each once -/
+theorem offset_order_is_key_order (svs : List (κ × Survey τ ν)) (nOffsets : Nat) (perm : List Nat)
+    (m : Merged κ τ ν) (h : merge le svs nOffsets perm = .ok m) :
+    uniq m.ids = uniq (catIds svs) ∧ (uniq (catIds svs)).Pairwise (· < ·) ∧
+    (uniq (catIds svs)).length = nOffsets + 1 ∧
+    ∀ a, a ∈ uniq (catIds svs) ↔ ∃ p ∈ svs, p.1 = a ∧ p.2.t ≠ [] := by
+  obtain ⟨_, hn, hv, _, _, _, hi, _⟩ := merge_ok le svs nOffsets perm m h
+  simp only [validPerm, Bool.and_eq_true] at hv
+  refine ⟨?_, uniq_sorted _, hn, ?_⟩
+  · rw [hi]
+    apply uniq_congr
+    intro k
+    constructor
+    · exact mem_gather _ _ _
+    · intro hk
+      obtain ⟨i, hi'⟩ := List.mem_iff_getElem?.mp hk
+      have hlt : i < (catIds svs).length := (List.getElem?_eq_some_iff.mp hi').1
+      -- every position occurs in an accepted permutation
+      have hlen : (catIds svs).length = (catT svs).length := by
+        simp only [catIds, catT, List.length_flatMap, List.length_replicate]
+      have hmem : i ∈ perm := (isPermOfRange_perm _ _ hv.1).mem_iff.mpr (List.mem_range.mpr (by omega))
+      unfold gather
+      rw [List.mem_filterMap]
+      exact ⟨i, hmem, hi'⟩
+  · intro a
+    rw [mem_uniq]
+    simp only [catIds, List.mem_flatMap, List.mem_replicate]
+    constructor
+    · rintro ⟨p, hp, hne, rfl⟩
+      exact ⟨p, hp, rfl, fun h0 => hne (by simp [h0])⟩
+    · rintro ⟨p, hp, rfl, hne⟩
+      exact ⟨p, hp, fun h0 => hne (List.length_eq_zero_iff.mp h0), rfl⟩
+
+/-- the constant block: column 0 is one in every row; column `1+j` of a row is one exactly when the row's
+key is the `(j+1)`-th key — which, by `merge_pairing`, is the key of the source the row's `(t, rv, err)` came
+from.  Hence column `1+j` is one on all epochs of that source and only on those. -/
+theorem offset_columns_are_indicators [OfNat τ 0] [OfNat τ 1] [Sub τ] [Mul τ]
+    (svs : List (κ × Survey τ ν)) (nOffsets : Nat) (perm : List Nat)
+    (m : Merged κ τ ν) (h : merge le svs nOffsets perm = .ok m) (p : Nat)
+    (i : Nat) (t : τ) (k : κ) (hi : (m.t.zip m.ids)[i]? = some (t, k)) :
+    ∃ row, (m.design p)[i]? = some row ∧ row[0]? = some 1 ∧
+      ∀ j, j < nOffsets → ∃ a, (uniq (catIds svs))[j + 1]? = some a ∧
+        row[j + 1]? = some (if k = a then 1 else 0) := by
+  obtain ⟨hu, _, hn, _⟩ := offset_order_is_key_order le svs nOffsets perm m h
+  refine ⟨designRow (uniq m.ids) p m.tref t k, ?_, ?_, ?_⟩
+  · simp [Merged.design, designOfRows, hi]
+  · simp [designRow, constRow]
+  · intro j hj
+    rw [hu]
+    have hlt : j + 1 < (uniq (catIds svs)).length := by omega
+    refine ⟨(uniq (catIds svs))[j + 1], List.getElem?_eq_getElem hlt, ?_⟩
+    have htl : j < (uniq (catIds svs)).tail.length := by simp; omega
+    simp only [designRow, constRow, List.cons_append, List.getElem?_cons_succ]
+    rw [List.getElem?_append_left (by simpa using htl), List.getElem?_map, List.getElem?_eq_getElem htl]
+    simp [List.getElem_tail]
+
+/-- exactly one source — the one with the smallest key — is the offset-free reference: its rows have zeros in
+every offset column; every other source has exactly one offset column (the rank of its key) -/
+theorem reference_is_smallest_key [OfNat τ 0] [OfNat τ 1]
+    (svs : List (κ × Survey τ ν)) (nOffsets : Nat) (perm : List Nat)
+    (m : Merged κ τ ν) (h : merge le svs nOffsets perm = .ok m) :
+    ∃ r rest, uniq (catIds svs) = r :: rest ∧ rest.length = nOffsets ∧
+      r ∈ catIds svs ∧ (∀ k ∈ catIds svs, r ≤ k) ∧
+      (constRow (r :: rest) r : List τ) = 1 :: rest.map (fun _ => 0) ∧
+      ∀ k ∈ catIds svs, k ≠ r → ∃ j, rest[j]? = some k ∧
+        ∀ j', j' < rest.length → (constRow (r :: rest) k : List τ)[j' + 1]? = some (if j' = j then 1 else 0) := by
+  obtain ⟨_, hsorted, hn, _⟩ := offset_order_is_key_order le svs nOffsets perm m h
+  cases hq : uniq (catIds svs) with
+  | nil => rw [hq] at hn; simp at hn
+  | cons r rest =>
+    rw [hq] at hn hsorted
+    obtain ⟨hr1, hr2⟩ := uniq_head_le (catIds svs) r rest hq
+    rw [List.pairwise_cons] at hsorted
+    refine ⟨r, rest, rfl, by simpa using hn, hr1, hr2, ?_, ?_⟩
+    · simp only [constRow, List.tail_cons, List.cons.injEq, true_and]
+      apply List.map_congr_left
+      intro a ha
+      simp [ne_of_lt (hsorted.1 a ha)]
+    · intro k hk hkr
+      have hku : k ∈ r :: rest := by rw [← hq]; exact (mem_uniq _ k).mpr hk
+      have hkrest : k ∈ rest := by
+        rcases List.mem_cons.mp hku with rfl | h'
+        · exact absurd rfl hkr
+        · exact h'
+      obtain ⟨j, hj⟩ := List.mem_iff_getElem?.mp hkrest
+      refine ⟨j, hj, ?_⟩
+      intro j' hj'
+      have hnd : rest.Nodup := hsorted.2.imp (fun h => ne_of_lt h)
+      obtain ⟨hjlt, hjeq⟩ := List.getElem?_eq_some_iff.mp hj
+      simp only [constRow, List.tail_cons, List.getElem?_cons_succ, List.getElem?_map,
+        List.getElem?_eq_getElem hj', Option.map_some, Option.some.injEq]
+      by_cases hjj : j' = j
+      · subst hjj; simp [hjeq]
+      · have : k ≠ rest[j'] := by
+          intro he
+          apply hjj
+          have := (List.Nodup.getElem_inj_iff hnd (hi := hj') (hj := hjlt)).mp (by rw [hjeq, ← he])
+          exact this
+        simp [this, hjj]
+
+/-- list input `[d0, d1, …]` (every source non-empty): the keys with a column are `0, 1, …` in list order -/
+theorem list_input_keys (ds : List (Survey τ ν)) (hne : ∀ d ∈ ds, d.t ≠ []) :
+    uniq (catIds (listInput ds)) = List.range ds.length := by
+  rw [← uniq_of_sorted (List.range ds.length) List.pairwise_lt_range]
+  apply uniq_congr
+  intro k
+  simp only [catIds, listInput, List.mem_flatMap, List.mem_map, List.mem_replicate, List.mem_range]
+  constructor
+  · rintro ⟨p, ⟨x, hx, rfl⟩, _, rfl⟩
+    have := List.mem_zipIdx_iff_getElem?.mp hx
+    exact (List.getElem?_eq_some_iff.mp this).1
+  · intro hk
+    refine ⟨(k, ds[k]), ⟨(ds[k], k), ?_, rfl⟩, ?_, rfl⟩
+    · exact List.mem_zipIdx_iff_getElem?.mpr (List.getElem?_eq_getElem hk)
+    · intro h0
+      exact hne _ (List.getElem_mem hk) (List.length_eq_zero_iff.mp h0)
+
+/-- … so for list input the first source is the reference and the `c`-th further source gets column `c`,
+i.e. the offset parameter `dv0_c`: in the row of an epoch of source `s`, column `c` is one iff `c = 0 ∨ c = s` -/
+theorem list_input_rule [OfNat τ 0] [OfNat τ 1] (n s c : Nat) (hc : c < n) :
+    (constRow (List.range n) s : List τ)[c]? = some (if c = 0 ∨ s = c then 1 else 0) := by
+  cases c with
+  | zero => simp [constRow]
+  | succ c =>
+    have hc' : c < n - 1 := by omega
+    simp only [constRow, List.tail_range, List.getElem?_cons_succ, List.getElem?_map,
+      List.getElem?_range' hc', Option.map_some]
+    have e : 1 + c = c + 1 := by omega
+    simp [e]
+
+/-- consequently the design matrix handed to the likelihood is the design matrix of the correctly labelled
+data: row `i` is built from the time **and the key of the very observation** stored in row `i`, relative to the
+earliest epoch of all sources -/
+theorem likelihood_of_labelled_data [OfNat τ 0] [OfNat τ 1] [Sub τ] [Mul τ]
+    (hrefl : ∀ a, le a a = true) (htrans : ∀ a b c, le a b = true → le b c = true → le a c = true)
+    (svs : List (κ × Survey τ ν)) (hwf : WellFormed svs) (nOffsets : Nat) (perm : List Nat)
+    (m : Merged κ τ ν) (h : merge le svs nOffsets perm = .ok m) (p : Nat) :
+    m.design p = (gather perm (labelled svs)).map
+        (fun o => designRow (uniq (catIds svs)) p m.tref o.1 o.2.2.2) ∧
+    m.tref ∈ catT svs ∧ ∀ x ∈ catT svs, le m.tref x = true := by
+  obtain ⟨hu, _, _, _⟩ := offset_order_is_key_order le svs nOffsets perm m h
+  obtain ⟨_, _, hv, ht, hr, he, hi, hhead⟩ := merge_ok le svs nOffsets perm m h
+  have hsorted := merge_sorted le htrans svs nOffsets perm m h
+  simp only [validPerm, Bool.and_eq_true] at hv
+  obtain ⟨l1, l2, l3⟩ := cat_lengths svs hwf
+  have hlt : ∀ i ∈ perm, i < (catT svs).length := perm_lt_of_isPermOfRange _ _ hv.1
+  refine ⟨?_, ?_⟩
+  · rw [← merge_pairing le svs hwf nOffsets perm m h]
+    simp only [Merged.design, designOfRows, hu]
+    have hz := zip4_proj m.t m.rv m.err m.ids
+      (by rw [hr, ht, gather_length _ _ hlt, gather_length _ _ (by rw [l1]; exact hlt)])
+      (by rw [he, ht, gather_length _ _ hlt, gather_length _ _ (by rw [l2]; exact hlt)])
+      (by rw [hi, ht, gather_length _ _ hlt, gather_length _ _ (by rw [l3]; exact hlt)])
+    rw [← hz, List.map_map]
+    rfl
+  · have hp : m.t.Perm (catT svs) := by rw [ht]; exact gather_perm perm _ (isPermOfRange_perm _ _ hv.1)
+    cases hmt : m.t with
+    | nil => rw [hmt] at hhead; simp at hhead
+    | cons m0 r =>
+      rw [hmt] at hhead hsorted hp
+      simp only [List.head?_cons, Option.some.injEq] at hhead
+      subst hhead
+      refine ⟨hp.subset List.mem_cons_self, ?_⟩
+      intro x hx
+      rcases List.mem_cons.mp (hp.symm.subset hx) with rfl | hx'
+      · exact hrefl _
+      · exact (List.pairwise_cons.mp hsorted).1 x hx'
+
+/-- the nondeterministic model is not vacuous: for a total transitive order on times every set of sources
+without covariances, with at least one epoch and the declared number of offsets has an accepted run -/
+theorem merge_accepts_some_permutation (htrans : ∀ a b c, le a b = true → le b c = true → le a c = true)
+    (htotal : ∀ a b, (le a b || le b a) = true)
+    (svs : List (κ × Survey τ ν)) (nOffsets : Nat)
+    (hcov : ∀ p ∈ svs, p.2.hasCov = false) (hn : (uniq (catIds svs)).length = nOffsets + 1)
+    (hne : catT svs ≠ []) :
+    ∃ perm m, merge le svs nOffsets perm = .ok m := by
+  obtain ⟨perm, hv⟩ := exists_validPerm le htrans htotal (catT svs)
+  refine ⟨perm, ?_⟩
+  have hv' := hv
+  simp only [validPerm, Bool.and_eq_true] at hv'
+  have hp := gather_perm perm _ (isPermOfRange_perm _ _ hv'.1)
+  have hany : svs.any (fun p => p.2.hasCov) = false := by
+    simp only [List.any_eq_false]
+    intro p hp'
+    simp [hcov p hp']
+  unfold merge
+  simp only [hany, Bool.false_eq_true, if_false, hn, ne_eq, not_true_eq_false, hv, Bool.not_true]
+  cases hg : gather perm (catT svs) with
+  | nil =>
+    rw [hg] at hp
+    exact absurd hp.symm.eq_nil hne
+  | cons m r => simp
+
+/-! ### non-vacuity -/
+section Examples
+
+/-- two interleaved sources with a shared epoch (time 5): keys `"b"` (given first) and `"a"`; velocities
+`1000·source + index`.  The reference is `"a"` (smallest key), `"b"` gets the offset column. -/
+example :
+    (merge (κ := String) (fun (a b : Nat) => decide (a ≤ b))
+        [("b", { t := [1, 5, 9], rv := [1000, 1001, 1002], err := [1, 1, 1] }),
+         ("a", { t := [3, 5], rv := [2000, 2001], err := [2, 2] })] 1 [0, 3, 1, 4, 2]).toOption.map
+      (fun m => (m.t, m.rv, m.ids, (m.design 2 : List (List Nat))))
+    = some ([1, 3, 5, 5, 9], [1000, 2000, 1001, 2001, 1002], ["b", "a", "b", "a", "b"],
+            [[1, 1, 0], [1, 0, 2], [1, 1, 4], [1, 0, 4], [1, 1, 8]]) := by decide
+
+/-- the other order of the tied epochs is accepted too, and the labels move with the rows -/
+example :
+    (merge (κ := String) (fun (a b : Nat) => decide (a ≤ b))
+        [("b", { t := [1, 5, 9], rv := [1000, 1001, 1002], err := [1, 1, 1] }),
+         ("a", { t := [3, 5], rv := [2000, 2001], err := [2, 2] })] 1 [0, 3, 4, 1, 2]).toOption.map
+      (fun m => (m.rv, m.ids))
+    = some ([1000, 2000, 2001, 1001, 1002], ["b", "a", "a", "b", "b"]) := by decide
+
+/-- list input: three sources, keys 0,1,2 -/
+example : uniq (catIds (listInput [({ t := [4, 6], rv := [0, 1], err := [1, 1] } : Survey Nat Nat),
+    { t := [5], rv := [1000], err := [1] }, { t := [1, 2, 3], rv := [2000, 2001, 2002], err := [1, 1, 1] }]))
+    = [0, 1, 2] := by decide
+
+/-- a wrong number of declared offsets is refused -/
+example :
+    (merge (κ := Nat) (fun (a b : Nat) => decide (a ≤ b))
+        [(0, { t := [1], rv := [10], err := [1] }), (1, { t := [2], rv := [20], err := [1] })] 2 [0, 1]).toOption.isNone
+      = true := by decide
+
+end Examples
+
+end Data
